@@ -252,6 +252,10 @@ pub fn run(tier: &str) -> i32 {
                     if !thorough && api == Api::Async && prov != Prov::Memory && i % 3 != 0 {
                         continue;
                     }
+                    // brotli quality 11 dominates the cost: quick keeps it to every 4th map
+                    if !thorough && l.settings.internal == Compression::Brotli && i % 4 != 1 {
+                        continue;
+                    }
                     let bad = match write_with_provenance(l, prov, api) {
                         Ok(b) => dedup_oracle(&l.tiles, &b),
                         Err(e) => vec![("write-failed".to_string(), e)],
